@@ -2,7 +2,7 @@ import sys,json
 sys.path.insert(0,'/verif')
 import vcheck, checks
 shapes=json.loads(sys.argv[1])
-jobs=[{"pkgdir":"align/pals/dp","func":"VerifC15_AlignTraps","sched":"det","floatsplit":True,"params":{"tlen":t,"qlen":q,"minlen":ml,"minid":mi,"k":k},"timeout_s":1500} for (t,q,ml,mi,k) in shapes]
+jobs=[{"pkgdir":"align/pals/dp","func":"VerifC15_AlignTraps","sched":"det","floatsplit":True,"math":True,"params":{"tlen":t,"qlen":q,"minlen":ml,"minid":mi,"k":k},"timeout_s":1500} for (t,q,ml,mi,k) in shapes]
 PID=sys.argv[2] if len(sys.argv)>2 else "C15"
 checks.CHECKS[PID]={"jobs":lambda t:jobs,"functions":[],"explanation":"","outside":""}
 rc=vcheck.run_check(PID,"quick")
